@@ -321,20 +321,37 @@ def render(defs):
                 line = '    '
                 if v['skip'] and 'attr_index' in v and v.get('index_first'):
                     # two separate attributes, the index first: both must be seen
-                    line += '#[codec(index = %d)] #[codec(skip)] ' % v['attr_index']
+                    line += '#[codec(index = %s)] #[codec(skip)] ' % _lit(v['attr_index'])
                 else:
                     if v['skip']:
                         line += '#[codec(skip)] '
                     if 'attr_index' in v:
-                        line += '#[codec(index = %d)] ' % v['attr_index']
+                        line += '#[codec(index = %s)] ' % _lit(v['attr_index'])
                 line += v['name'] + vfields_src(v['fields'], v['kind'])
                 if 'discr' in v:
-                    line += ' = %d' % v['discr']
+                    line += ' = %s' % _lit(v['discr'], suffix=False)
                 out.append(line + ',')
             out.append('}')
         out.append('')
     out.append('}')
     return '\n'.join(out) + '\n'
+
+
+def _lit(n, suffix=True):
+    """every spelling of an integer literal the attribute grammar admits: the value, not the token text, is the index"""
+    k = n % 6
+    if k == 1:
+        return '0x%x' % n
+    if k == 2:
+        return '0b%s' % bin(n)[2:]
+    if k == 3 and suffix:
+        return '%du8' % n
+    if k == 4 and n >= 10:
+        s = str(n)
+        return s[0] + '_' + s[1:]
+    if k == 5:
+        return '0o%o' % n
+    return str(n)
 
 
 def _put(path, text):
